@@ -1,0 +1,33 @@
+//go:build verif
+
+package pongo2
+
+import "sort"
+
+// Verification hooks (build tag "verif"): read-only access to unexported
+// registries and to the lexer. Never compiled into normal builds.
+
+// VerifRegisteredTags returns the sorted names of all registered tags.
+func VerifRegisteredTags() []string {
+	names := make([]string, 0, len(tags))
+	for name := range tags {
+		names = append(names, name)
+	}
+	sort.Strings(names)
+	return names
+}
+
+// VerifRegisteredFilters returns the sorted names of all registered filters.
+func VerifRegisteredFilters() []string {
+	names := make([]string, 0, len(filters))
+	for name := range filters {
+		names = append(names, name)
+	}
+	sort.Strings(names)
+	return names
+}
+
+// VerifLex runs the unexported lexer and returns its token list.
+func VerifLex(name, src string) ([]*Token, *Error) {
+	return lex(name, src)
+}
